@@ -723,7 +723,7 @@ func TestVerif_C27(t *testing.T) {
 		}
 		mainPro := mc.Pick(r, []string{"small", "huge", "mixed"}, []string{"small", "huge", "mixed", "zeros", "ones", "bigoff", "bigsize", "callA", "create", "signed", "precomp", "empty"})
 		maxLen := 2
-		r.Rule("program = stack prologue ++ every byte string of length <=L over all 256 byte values, run as (call, value 0) and (create, value 1; quick tier: only the 'mixed' prologue at L=2) under each rule set: " +
+		r.Rule("program = stack prologue ++ every byte string of length <=L over all 256 byte values, run as (call, value 0) and (create, value 1; quick tier: only the 'mixed' prologue at L=2; thorough: small, huge, mixed, zeros, bigoff, create) under each rule set: " +
 			"a baseline run with 10^7 gas, then the exact-cost grid derived from the baseline's own trace (for every instruction after the prologue: one gas unit short of it, exactly enough for it; exactly the total and total+1). " +
 			"Every other prologue (incl. 1023-item 'full' and 'empty') with all strings of length <=1. A tracer checks every step of every frame. " +
 			"distinct = distinct (rule set, mode, prologue, outcome class, executed opcode sequence)")
@@ -758,6 +758,9 @@ func TestVerif_C27(t *testing.T) {
 					shards = append(shards, shard{f, m.mode, p.Name, 0, -1, m.value, true})
 					shards = append(shards, shard{f, m.mode, p.Name, 1, -1, m.value, true})
 					if m.mode == "create" && r.Quick() && p.Name != "mixed" {
+						main = false
+					}
+					if m.mode == "create" && r.Thorough() && !map[string]bool{"small": true, "huge": true, "mixed": true, "zeros": true, "bigoff": true, "create": true}[p.Name] {
 						main = false
 					}
 					if main && maxLen >= 2 {
